@@ -31,7 +31,7 @@ LEVEL = "model_checking"
 RULE = ("topologies: 2 topics (Imu, Mag) + params; subscriber sets = every multiset of <= 3 subscribers from {plain on a, plain on b, relay a->b} (incl. none, two on one topic); "
         "parameter nodes {0,1,2} each following or not following the parameter topic; logger present/absent; periodic publishers with integer periods (1,2),(2,3),(1,1) or none. "
         "events: pub a, pub b, wrong type on a, set_param node, set_param logger/dt, run +1, run +2; all words to the depth; tie-break schedules with <= k deviations. "
-        "topic names with pattern / path characters (7 sets) on 3 subscriber sets; wrong objects {Mag, foreign class named Imu, base Msg with Imu layout, other layout} in turn. estimator: all words over (sensor, delta t) with delta t in {-20,-1,0,1,4,5,6,20} ms. a state = (registry, queue, inboxes) after an event; non-trivial = word with a delivery")
+        "topic names with pattern / path characters (7 sets) on 3 subscriber sets; wrong objects {Mag, foreign class named Imu, base Msg with Imu layout, other layout} in turn. logger runs of 70000 / 33000 rows (thorough 280000 / 140000). estimator (also at time stamps 4096 s and 1e6 s, with one reused message object, and for a node the caller does not keep): all words over (sensor, delta t) with delta t in {-20,-1,0,1,4,5,6,20} ms. a state = (registry, queue, inboxes) after an event; non-trivial = word with a delivery")
 ASSUMPTIONS = ["simpy's event queue is permuted only among events tied at exactly the same (time, priority)", "topologies and words beyond the bounds are not covered"]
 
 
